@@ -254,12 +254,15 @@ func (e *env) checkFrame(id string) []string {
 }
 
 // substitute returns (creating on first use) the substitute object of a slot.
-func (e *env) substitute(slot string, target *sdl.Instance) any {
+func (e *env) substitute(slot string, target *sdl.Instance, subType string) any {
 	if s, ok := e.subs[slot]; ok {
 		return s
 	}
+	if subType == "" {
+		subType = target.Type
+	}
 	h := &simrt.Handle{ID: "sub:" + slot, Alias: target.Alias, Qual: target.Qual, Kind: target.Kind, Ord: target.Order, C: e.ctx}
-	s := e.newObject(target.Type, h)
+	s := e.newObject(subType, h)
 	e.subs[slot] = s
 	return s
 }
@@ -592,7 +595,7 @@ func (e *env) main(inClose, closeReturned *bool) {
 			}
 			for _, r := range pr.Rules {
 				if r.Target == tgt.ID && r.At == cb && r.Action == "substitute" {
-					return e.substitute(r.Sub, tgt)
+					return e.substitute(r.Sub, tgt, r.SubType)
 				}
 			}
 			return nil
